@@ -605,6 +605,15 @@ type peekedConn struct {
 // be read again.
 func (c *peekedConn) Read(buf []byte) (int, error) { return c.r.Read(buf) }
 
+// CloseWrite shuts down the writing side of the embedded connection if it can,
+// and closes it otherwise.
+func (c *peekedConn) CloseWrite() error {
+	if cw, ok := c.Conn.(interface{ CloseWrite() error }); ok {
+		return cw.CloseWrite()
+	}
+	return c.Conn.Close()
+}
+
 func (p *Proxy) roundTrip(ctx *Context, req *http.Request) (*http.Response, error) {
 	if ctx.SkippingRoundTrip() {
 		log.Debugf("martian: skipping round trip")
@@ -631,6 +640,13 @@ func (p *Proxy) connect(req *http.Request) (*http.Response, net.Conn, error) {
 		res, err := http.ReadResponse(pbr, req)
 		if err != nil {
 			return nil, nil, err
+		}
+		if res.StatusCode/100 == 2 {
+			// A successful CONNECT response has no body (RFC 7231, 4.3.6), and a
+			// downstream proxy sends no Content-Length with it: everything after
+			// the header is tunnel data, part of which pbr may already hold.
+			res.Body = http.NoBody
+			return res, &peekedConn{conn, pbr}, nil
 		}
 
 		return res, conn, nil
